@@ -7,6 +7,7 @@ import Ivg.Gen.Tie.GradientFields
 import Ivg.Gen.Tie.RendererFields
 import Ivg.Gen.Tie.Code.RenderRegs
 import Ivg.Gen.Tie.Code.Retarget
+import Ivg.Gen.Tie.Code.Resolve
 import Ivg.Obligations
 /-!
 # C17 — the output of an Encoder / Renderer depends only on the calls since its last Reset
@@ -249,4 +250,9 @@ end Ivg.Props.C17
   -- regenerated code (translator): SetRasterizer recomputes the transform from the current viewBox and the new rectangle
   Ivg.Gen.Tie.rectangle_Empty_code_tie,
   Ivg.Gen.Tie.renderer_SetRasterizer_code_tie,
-  Ivg.Gen.Tie.renderer_SetRasterizer_code_tie_frame]
+  Ivg.Gen.Tie.renderer_SetRasterizer_code_tie_frame,
+  -- regenerated code with loops/recursion (translator, fuel) = model, for all inputs and sufficient fuel: Resolve
+  Ivg.Gen.Tie.color_Resolve_code_tie,
+  Ivg.Gen.Tie.color_Resolve_code_tie_badTyp,
+  Ivg.Gen.Tie.renderer_SetCReg_code_tie,
+  Ivg.Gen.Tie.renderer_SetCReg_code_tie']
